@@ -550,6 +550,23 @@ theorem C19_embedded_defect : ¬ C19_embedded_Statement := by
 example : toHtmlString witnessEnv witnessTwoSvg [] = .ok
     ['<','!','D','O','C','T','Y','P','E',' ','h','t','m','l','>','<','d','i','v','>','<','s','v','g',' ','x','m','l','n','s','=','"','h','t','t','p',':','/','/','w','w','w','.','w','3','.','o','r','g','/','2','0','0','0','/','s','v','g','"','>','<','/','s','v','g','>','<','s','v','g','>','<','/','s','v','g','>','<','/','d','i','v','>'] := by decide
 
+/-- Second cause: the injected binding does not replace an older one.  `svg > p > svg` with `p` in
+    `XHTML_NS`: the inner `svg` is written bare under the `xmlns` of `p`. -/
+example :
+    let env : Env := ⟨[[], xmlNs, svgNs, xhtmlNs], [[], ['x','m','l']],
+      [(['s','p','a','c','e'], 1), (['i','d'], 1), (['p'], 3), (['s','v','g'], 2)]⟩
+    let t : Tree := .node (.element 3) [.node (.element 2) [.node (.element 3) []]]
+    embeddedUnderDefault (htmlCtx env {}) []
+      (match renderHtmlAll (htmlCtx env {}) t (initStack t []) (genOutputs t []) with | .ok l => l | _ => []) = false := by
+  decide
+
+/-- Third cause: a default declaration the `Prefix` arm hides still counts as a binding.
+    `<div xmlns="…svg"><svg/></div>` with `div` in no namespace is written `<div><svg></svg></div>`. -/
+example :
+    toHtmlString witnessEnv (.node (.element 2) [.node (.namespace 0 2) [], .node (.element 3) []]) [] = .ok
+      ['<','!','D','O','C','T','Y','P','E',' ','h','t','m','l','>','<','d','i','v','>','<','s','v','g','>','<','/','s','v','g','>',
+       '<','/','d','i','v','>'] := by decide
+
 /-! ### Non-vacuity -/
 
 /-- Void, raw text, nbsp, boolean attribute, upper-case names: `<div><BR></BR>…` never appears. -/
